@@ -149,6 +149,8 @@ impl<T> Clone for DistributionSender<T> {
 
 impl<T> Drop for DistributionSender<T> {
     fn drop(&mut self) {
+        #[cfg(datafusion_verif)]
+        datafusion_common::verif::point("dc_d_nsend", &[]);
         let n_senders_pre = self.channel.n_senders.fetch_sub(1, Ordering::SeqCst);
         // is the last copy of the sender side?
         if n_senders_pre > 1 {
@@ -156,6 +158,8 @@ impl<T> Drop for DistributionSender<T> {
         }
 
         let receivers = {
+            #[cfg(datafusion_verif)]
+            datafusion_common::verif::point("dc_d_lock", &[]);
             let mut state = self.channel.state.lock();
 
             // During the shutdown of a empty channel, both the sender and the receiver side will be dropped. However we
@@ -181,6 +185,10 @@ impl<T> Drop for DistributionSender<T> {
             state.recv_wakers.take().expect("not closed yet")
         };
 
+        #[cfg(datafusion_verif)]
+        if !receivers.is_empty() {
+            datafusion_common::verif::point("dc_d_wake", &[]);
+        }
         // wake outside of lock scope
         for recv in receivers {
             recv.wake();
@@ -206,6 +214,8 @@ impl<T> Future for SendFuture<'_, T> {
 
         // lock scope
         let to_wake = {
+            #[cfg(datafusion_verif)]
+            datafusion_common::verif::point("dc_s_lock", &[]);
             let mut guard_channel_state = this.channel.state.lock();
 
             let Some(data) = guard_channel_state.data.as_mut() else {
@@ -217,9 +227,15 @@ impl<T> Future for SendFuture<'_, T> {
 
             // does ANY receiver need data?
             // if so, allow sender to create another
+            #[cfg(datafusion_verif)]
+            datafusion_common::verif::point("dc_s_load", &[]);
             if this.gate.empty_channels.load(Ordering::SeqCst) == 0 {
+                #[cfg(datafusion_verif)]
+                datafusion_common::verif::point("dc_s_gate", &[]);
                 let mut guard = this.gate.send_wakers.lock();
                 if let Some(send_wakers) = &mut *guard {
+                    #[cfg(datafusion_verif)]
+                    datafusion_common::verif::point("dc_s_reg", &[]);
                     send_wakers.push((cx.waker().clone(), this.channel.id));
                     return Poll::Pending;
                 }
@@ -236,6 +252,10 @@ impl<T> Future for SendFuture<'_, T> {
             }
         };
 
+        #[cfg(datafusion_verif)]
+        if !to_wake.is_empty() {
+            datafusion_common::verif::point("dc_s_wake", &[]);
+        }
         // wake outside of lock scope
         for receiver in to_wake {
             receiver.wake();
@@ -267,6 +287,8 @@ impl<T> DistributionReceiver<T> {
 
 impl<T> Drop for DistributionReceiver<T> {
     fn drop(&mut self) {
+        #[cfg(datafusion_verif)]
+        datafusion_common::verif::point("dc_x_lock", &[]);
         let mut guard_channel_state = self.channel.state.lock();
         let data = guard_channel_state.data.take().expect("not dropped yet");
 
@@ -296,6 +318,8 @@ impl<T> Future for RecvFuture<'_, T> {
         let this = &mut *self;
         assert!(!this.rdy, "polled ready future");
 
+        #[cfg(datafusion_verif)]
+        datafusion_common::verif::point("dc_r_lock", &[]);
         let mut guard_channel_state = this.channel.state.lock();
         let channel_state = &mut *guard_channel_state;
         let data = channel_state.data.as_mut().expect("not dropped yet");
@@ -305,11 +329,15 @@ impl<T> Future for RecvFuture<'_, T> {
                 // change "empty" signal for this channel?
                 if data.is_empty() && channel_state.recv_wakers.is_some() {
                     // update counter
+                    #[cfg(datafusion_verif)]
+                    datafusion_common::verif::point("dc_r_incr", &[]);
                     let old_counter =
                         this.gate.empty_channels.fetch_add(1, Ordering::SeqCst);
 
                     // open gate?
                     let to_wake = if old_counter == 0 {
+                        #[cfg(datafusion_verif)]
+                        datafusion_common::verif::point("dc_r_gate", &[]);
                         let mut guard = this.gate.send_wakers.lock();
 
                         // check after lock to see if we should still change the state
@@ -324,6 +352,10 @@ impl<T> Future for RecvFuture<'_, T> {
 
                     drop(guard_channel_state);
 
+                    #[cfg(datafusion_verif)]
+                    if !to_wake.is_empty() {
+                        datafusion_common::verif::point("dc_r_wake", &[]);
+                    }
                     // wake outside of lock scope
                     for (waker, _channel_id) in to_wake {
                         waker.wake();
@@ -335,6 +367,8 @@ impl<T> Future for RecvFuture<'_, T> {
             }
             None => {
                 if let Some(recv_wakers) = channel_state.recv_wakers.as_mut() {
+                    #[cfg(datafusion_verif)]
+                    datafusion_common::verif::point("dc_r_reg", &[]);
                     recv_wakers.push(cx.waker().clone());
                     Poll::Pending
                 } else {
@@ -428,6 +462,8 @@ impl Gate {
     fn wake_channel_senders(&self, id: usize) {
         // lock scope
         let to_wake = {
+            #[cfg(datafusion_verif)]
+            datafusion_common::verif::point("dc_x_wcs", &[]);
             let mut guard = self.send_wakers.lock();
 
             if let Some(send_wakers) = &mut *guard {
@@ -443,6 +479,10 @@ impl Gate {
             }
         };
 
+        #[cfg(datafusion_verif)]
+        if !to_wake.is_empty() {
+            datafusion_common::verif::point("dc_x_wake", &[]);
+        }
         // wake outside of lock scope
         for (waker, _id) in to_wake {
             waker.wake();
@@ -450,9 +490,13 @@ impl Gate {
     }
 
     fn decr_empty_channels(&self) {
+        #[cfg(datafusion_verif)]
+        datafusion_common::verif::point("dc_decr", &[]);
         let old_count = self.empty_channels.fetch_sub(1, Ordering::SeqCst);
 
         if old_count == 1 {
+            #[cfg(datafusion_verif)]
+            datafusion_common::verif::point("dc_decr_gate", &[]);
             let mut guard = self.send_wakers.lock();
 
             // double-check state during lock
